@@ -350,7 +350,7 @@ def run_case(case):
             if d is None and nv == [11, -22, 33]:
                 return Outcome(True, labels=sorted(labels | {"wraparound_accepted"}), nontrivial="neighbour_within_8" in labels)
             return fail("wraparound_write_corrupts", f"{kind} {mu}: {d or nv or got}", kind, labels)
-        return fail("accepted_silently", f"{kind} {mu}: the operation returned {str(r)[:80]!r} instead of raising", kind, labels)
+        return fail("accepted_silently", f"{kind} {mu}: the operation returned {_safe_repr(r)} instead of raising", kind, labels)
     if is_raised(got):
         return fail("raised_but_object_unreadable", f"{kind}: {r}; then {got}", kind, labels)
     d = tg.first_diff(spec, model, got)
@@ -361,6 +361,13 @@ def run_case(case):
     if changed_live:
         return fail("raised_but_live_bytes_changed", f"{kind}: {r}; bytes {changed_live[:8]} inside live extents changed", kind, labels)
     return Outcome(True, labels=sorted(labels), nontrivial=applied and "neighbour_within_8" in labels)
+
+
+def _safe_repr(x):
+    try:
+        return repr(str(x)[:80])
+    except Exception as e:  # the object may be unreadable by now
+        return f"<{type(x).__name__}: repr raised {type(e).__name__}>"
 
 
 def _default_item(ispec):
